@@ -87,6 +87,23 @@ def gen_family_pairs(rnd: random.Random, n: int) -> list[tuple[str, str]]:
     return out
 
 
+def pin_at_end_pairs() -> list[tuple[str, str]]:
+    """a single pinned version that IS one end of a bounded range (or lies just outside / inside it), against that range with
+    every combination of end flags, in both operand orders: `Version.union/intersect/difference` have their own branches for
+    `v == other.min` and `v == other.max`, and each must keep the OTHER end's flag (seeded change C05-6)"""
+    out = []
+    for lo, hi in (("1.0", "2.0"), ("1.2.3", "1.3"), ("1.0.post1", "1.1.dev0"), ("2.0a1", "2.0"), ("1!1.0", "1!2")):
+        for lop in (">", ">="):
+            for hop in ("<", "<="):
+                rng = f"{lop}{lo},{hop}{hi}"
+                for v in (lo, hi):
+                    out += [("==" + v, rng), (rng, "==" + v)]
+        for rng in (f">{lo}", f">={lo}", f"<{hi}", f"<={hi}"):
+            for v in (lo, hi):
+                out += [("==" + v, rng), (rng, "==" + v)]
+    return out
+
+
 def wildcard_edge_unions() -> list[str]:
     """two-range unions around one release series with every combination of end flags and plain / first-dev ends — the shapes
     next to the one the printer spells `!=X.*` (`<X.dev0 || >=next.dev0`)"""
